@@ -105,6 +105,18 @@ func (h *Hub) Register(name string) {
 	h.mu.Unlock()
 }
 
+// GoidOf returns the goroutine id registered under name (0 if none).
+func (h *Hub) GoidOf(name string) int64 {
+	h.mu.Lock()
+	defer h.mu.Unlock()
+	for id, n := range h.threads {
+		if n == name {
+			return id
+		}
+	}
+	return 0
+}
+
 func (h *Hub) Unregister() {
 	id := Goid()
 	h.mu.Lock()
